@@ -6,8 +6,8 @@
 From Coq Require Import String.
 From Coq Require Import List NArith ZArith Lia Bool Arith.
 From Coq Require Import Init.Byte.
-From FFS Require Import Base.Res Base.Bytes Base.Lit Keystore.Json Keystore.Prims Keystore.Model Keystore.Spec.
-From FFS Require Import Keystore.ProofsFresh Keystore.ProofsMac Keystore.ProofsNew Keystore.Toy.
+From FFS Require Import Base.Res Base.Bytes Keystore.Json Keystore.Prims Keystore.Model Keystore.Spec.
+From FFS Require Import Keystore.JsonFacts Keystore.ProofsFresh Keystore.ProofsMac Keystore.ProofsNew Keystore.ProofsRead Keystore.ProofsRound Keystore.Toy.
 Import ListNotations.
 
 (* 1. A newly created wallet file is a standard Web3 Secret Storage V3 document.  For every
@@ -37,6 +37,67 @@ Theorem C07_create_total :
   forall (c : creation) (rnd : bytes), (64 <= length rnd)%nat -> exists w rest, create P c rnd = Ok (w, rest).
 Proof. exact create_total. Qed.
 Print Assumptions C07_create_total.
+
+(* 2. Round trip through the bytes.  For every constructor, password, key and random stream: the bytes
+      JSON() prints — after any Metadata()[k] = v assignments that satisfy [extra_ok] — are read back by
+      ReadWalletFile with the same password to the same private key, the address of that key, the same
+      id, and every non-nil metadata entry of the wallet whose key is not one of the protected core
+      fields id / version / crypto (those are overwritten by design).
+      Laws used beyond [crypto_laws]: json.Marshal output is lexed back to the same tree when all strings
+      are UTF-8 and numbers are number literals; uuid.String / UnmarshalText are inverse; an integer
+      literal converts to a float64.
+      [extra_ok P (k, v)]: k is not a case variant of id / version / crypto (see the known finding
+      C07/metadata-casefold-core-field and C07_roundtrip_casefold_refuted below for why this guard is
+      needed); k and v are UTF-8 / well-formed numbers; v is already in the form json.Unmarshal gives an
+      interface{} (numbers = printed float64, objects = maps), which is what "the same value comes back"
+      can mean for map[string]interface{}. *)
+Theorem C07_roundtrip :
+  forall (P : prims), crypto_laws P ->
+  (forall t, json_text_ok t = true -> json_parse P (json_print P t) = Some t) ->
+  (forall u, length u = 16%nat -> uuid_parse P (uuid_string u) = Some u) ->
+  (forall z, json_num P (print_Z z) <> None) ->
+  forall (c : creation) (rnd : bytes) (w : wallet) (rest : bytes) (extras : list (bytes * json)),
+    create P c rnd = Ok (w, rest) -> Forall (extra_ok P) extras ->
+    let w' := assign_all w extras in
+    exists wr, ReadWalletFile P (JSON P w') (pw_of c) = Ok wr /\
+      PrivateKey wr = key_of c /\
+      kp_address (KeyPair P wr) = address_of_key P (key_of c) /\
+      GetID wr = GetID w' /\ GetID wr <> None /\
+      forall k v, In (k, v) (Metadata w') -> v <> JNull -> protected_key k = false -> mget k (Metadata wr) = Some v.
+Proof. exact roundtrip. Qed.
+Print Assumptions C07_roundtrip.
+
+(* The guard on metadata keys cannot be dropped: with a key that differs from a core field only by
+   case, a file the package itself wrote cannot be read back (recorded as known finding
+   C07/metadata-casefold-core-field; the harness runs this witness against the implementation on
+   every run). *)
+Theorem C07_roundtrip_casefold_refuted :
+  exists (P : prims) (c : creation) (rnd : bytes) (w : wallet) (rest : bytes) (extras : list (bytes * json)),
+    crypto_laws P /\ create P c rnd = Ok (w, rest) /\
+    Forall (fun e => utf8_valid (fst e) = true /\ json_text_ok (snd e) = true /\ dec_iface P (snd e) = Ok (snd e)) extras /\
+    is_err (read_wallet_tree P (JSON_tree (assign_all w extras)) (pw_of c)) = true.
+Proof. exact roundtrip_casefold_refuted. Qed.
+Print Assumptions C07_roundtrip_casefold_refuted.
+
+(* 3. Standard files produced elsewhere are read correctly.  Every document that the V3 specification
+      decrypts with the password (scrypt with any N, r, p in the function's domain, or
+      PBKDF2-HMAC-SHA256 with any c >= 1; members in any order, unknown members anywhere, hex of either
+      case, secrets of any length) is read by ReadWalletFile to exactly that key, and GetID() is the
+      document's id.  Guards, both decidable on the document: [unambiguous] — no member of the document,
+      its crypto, cipherparams or kdfparams object has a name that equals a Go struct field name only
+      up to letter case (encoding/json would match it too); [nums_ok] — every number in the document
+      fits a float64 (the code also unmarshals the whole document into map[string]interface{}).
+      Holds with and without the cipher = "aes-128-ctr" requirement of the specification
+      (the code never looks at that member: known finding C15/cipher-ignored). *)
+Theorem C07_read_is_standard :
+  forall (P : prims), crypto_laws P -> uuid_accepts_text P ->
+  forall (check_cipher : bool) (doc : json) (pw key : bytes),
+    v3_decrypt_gen check_cipher P doc pw = Ok key ->
+    unambiguous doc = true -> nums_ok P doc = true ->
+    exists w, read_wallet_tree P doc pw = Ok w /\ PrivateKey w = key /\
+              exists id, v3_id doc = Some id /\ GetID w = uuid_parse P id /\ GetID w <> None.
+Proof. exact read_is_standard. Qed.
+Print Assumptions C07_read_is_standard.
 
 (* 4. Acceptance needs the MAC.  Whenever ReadWalletFile returns a wallet for (document, password) —
       any document, any password, no hypothesis on the primitives — the wallet's crypto section is what
@@ -91,13 +152,41 @@ Proof. exact fresh_positions. Qed.
 Print Assumptions C07_fresh_positions.
 
 (* ---- non-vacuity: the laws have an instance, creation and reading succeed on it ---- *)
-Example C07_laws_satisfiable : crypto_laws toy.
-Proof. exact toy_crypto_laws. Qed.
+Example C07_laws_satisfiable : crypto_laws toy /\ uuid_accepts_text toy.
+Proof. split; [exact toy_crypto_laws | exact toy_uuid_accepts_text]. Qed.
+
+(* all laws C07_roundtrip asks for, including the printer / lexer law, hold of [toy_codec] (a verified
+   printer-parser pair, Keystore/Codec.v) *)
+Example C07_roundtrip_laws_satisfiable :
+  crypto_laws toy_codec /\
+  (forall t, json_text_ok t = true -> json_parse toy_codec (json_print toy_codec t) = Some t) /\
+  (forall u, length u = 16%nat -> uuid_parse toy_codec (uuid_string u) = Some u) /\
+  (forall z, json_num toy_codec (print_Z z) <> None).
+Proof. split; [exact toy_codec_crypto_laws | exact toy_codec_laws]. Qed.
 
 Local Open Scope string_scope.
+(* ... and the round trip through bytes runs: guards met, file read back, extras returned *)
+Example C07_roundtrip_nonvacuous :
+  let pw := ascii_bytes "pw" in
+  let c := MkStandard pw {| kp_private := repeat x07 32; kp_address := repeat x0a 20 |} in
+  let extras := [(ascii_bytes "note", JStr (ascii_bytes "x")); (ascii_bytes "n", JNum (ascii_bytes "5"));
+                 (ascii_bytes "address", JNull)] in
+  Forall (extra_ok toy_codec) extras /\
+  match create toy_codec c (repeat x2a 64) with
+  | Ok (w, _) =>
+      match ReadWalletFile toy_codec (JSON toy_codec (assign_all w extras)) pw with
+      | Ok wr => bytes_eqb (PrivateKey wr) (repeat x07 32) = true /\
+                 mget (ascii_bytes "note") (Metadata wr) = Some (JStr (ascii_bytes "x")) /\
+                 mget (ascii_bytes "address") (Metadata wr) = None
+      | _ => False
+      end
+  | _ => False
+  end.
+Proof. split; [repeat constructor|]. vm_compute. repeat split. Qed.
+
 Example C07_nonvacuous :
   let pw := ascii_bytes "pässword " in
-  let c1 := MkCustomLight pw (unhex "00112233445566778899aabbccddeeff0011223344556677889900") in
+  let c1 := MkCustomLight pw (map (fun n => n2b (N.of_nat n)) (seq 17 27)) in
   let c2 := MkLight pw {| kp_private := repeat x07 32; kp_address := repeat x0a 20 |} in
   let rnd := map (fun n => n2b (N.of_nat n)) (seq 0 130) in
   match create_all toy [c1; c2] rnd with
@@ -106,6 +195,8 @@ Example C07_nonvacuous :
       (* reading the first file back is accepted: the hypotheses of theorems 4 are met *)
       is_ok (read_wallet_tree toy (JSON_tree (assign_all w1 [(ascii_bytes "note", JStr (ascii_bytes "x"))])) pw) = true /\
       is_ok (read_wallet_tree toy (JSON_tree w2) pw) = true /\
+      (* the hypotheses of theorem 3 are met by that document *)
+      is_ok (v3_decrypt toy (JSON_tree w2) pw) = true /\ unambiguous (JSON_tree w2) = true /\ nums_ok toy (JSON_tree w2) = true /\
       (* a wrong password is rejected *)
       is_ok (read_wallet_tree toy (JSON_tree w2) (ascii_bytes "pässword")) = false
   | _ => False
